@@ -146,6 +146,16 @@ CLAIMED = {
    ref="5/C08", note=TB + "scipy.stats.multivariate_normal, dask.random and np.random are outside the model; the realisation formula is compared numerically "
         "(1e-9), only the unpacking is evaluated in Coq; tmpw of the MC routine is weighted with MC variances (0/0 at exactly zero variance), so its "
         "zero-variance identity is checked with a 1e-14-scaled covariance against the routine's own tmpw.", technique="Coq proof of unpack=layout and guard; recomputation from exposed samples; sampling support labelled as such"),
+ "C09": dict(
+   text="Proof: (T34) for every averaging mode x selection kind x single/double x conf_ints given/None, no output of the model is indexed by the Monte Carlo sample "
+        "dimension and every averaged value, variance and bound is indexed by the kept dimension and CI only (a finite program, decided by computation and stated "
+        "as such); (T36) the inverse-variance weighted mean lies in the hull of the averaged values and its variance 1/sum(1/v_i) is positive and at most every v_i. "
+        "The hand-written output table is tied to the code by comparing, inside Coq, the dims of every variable returned by average_monte_carlo_single_ended / "
+        "_double_ended with the model (finding F6 - tmpw_mc_avgx1_var indexed by mc - was reported by this comparison and repaired). Values: avg1/avgx1 = arithmetic "
+        "mean of the calibrated temperature; avg2/avgx2 variance = 1/sum(1/var_i) exactly; sel by label vs isel by index of the same elements agree to 1e-10.",
+   ref="5/C09", note=TB + "PARTIAL for the avg2/avgx2 VALUE: the code reports the MC mean of the weighted set, which differs from the weighted mean of the calibrated "
+        "temperature by sampling noise; it is judged with an 8-standard-error threshold (sampling support, not proof). `*_avg1` variables are produced in every "
+        "mode (flag tested with `is not None`) - tolerated, they carry the right dims.", technique="Coq proof (finite dims program, weighted-mean algebra) + dims/value correspondence"),
 }
 NA = {}
 ALL = [f"C{i:02d}" for i in range(1, 21)]
